@@ -178,6 +178,15 @@ check("C05", "exploration",
       "deterministic simulation with fault injection: seeded program/schedule/fault search; end-of-reconcile oracle over recorded function responses and the write/read log",
       "§7 C05")
 
+check("C07", "exploration",
+      "Seeded deterministic simulation in W-claim of the real claim reconciler with either syncer (drawn per run) and the real XR reconciler writing XR-owned fields (resourceRefs, revision reference, connection secret reference, status, conditions, connection bookkeeping) between syncs. "
+      "Claims valid for the generated claim CRD (the simulated API server prunes exactly like the real one): nested user objects whose keys collide with machinery names at other depths, every subset of selection fields, Manual/Automatic/unset policy, reserved (*.kubernetes.io, *.k8s.io) and unreserved labels/annotations; user edits that change and remove fields; first sync and re-sync; API faults, conflicts, crashes. "
+      "Judged at every write a claim reconcile commits, against a partition written from the API documentation and against what that reconcile itself read: on the XR - claim-owned user and selection fields equal the claim's (removed fields disappear under the server-side syncer), claim-only machinery (resourceRef, compositeDeletePolicy, the claim's secret reference) absent, reserved keys not copied, XR-owned fields (resourceRefs, claimRef, the XR's secret reference, an existing external name, the automatically selected revision, status) unchanged; "
+      "on the claim - spec changes only in resourceRef, compositionRef when it had none, revision under non-Manual policy; status receives only user status fields equal to the XR's; no XR condition beyond those the XR publishes for its claim.",
+      TB + " Two allowances keep the oracle no stricter than the statement, both for the legacy client-side syncer only: its merge patch leaves keys removed inside a nested user object on the XR, and it merges claim-owned fields the XR has and the claim lacks back into the claim.",
+      "deterministic simulation with fault injection: seeded content/edit/schedule/fault search; every committed sync write judged against an independent field partition and the read log",
+      "§7 C07")
+
 def main():
     props = [json.loads(l)["id"] for l in open(os.path.join(V, "properties.jsonl"))]
     na = []
